@@ -110,7 +110,7 @@ func zzInterchainEvents(w *zzWorld, from int) []map[string]*pb.EventWrapper {
 	return out
 }
 
-var zzDsts = []string{"1356:chB:s2", "1356:1356:sB", "1357:chB:s2"}
+var zzDsts = []string{"1356:chB:s2", "1356:1356:sB", "1357:chB:s2", "1356:chA:s1"} // last: the source itself (self pair)
 
 // ZZH_C02_step: one HandleIBTP from an arbitrary consistent pre-state (Inv-IC):
 // for the pair (S,D): InterchainCounter[S][D]=c, ReceiptCounter[S][D]=r (mirrored on D), r<=c<2^62,
@@ -152,9 +152,16 @@ func zzHandleIBTPStep(nStatus int, onlyRequests bool) {
 	// interchain records
 	icF := &pb.Interchain{ID: from, InterchainCounter: map[string]uint64{to: c}, ReceiptCounter: map[string]uint64{to: r},
 		SourceInterchainCounter: map[string]uint64{}, SourceReceiptCounter: map[string]uint64{}}
+	self := dk == 3
+	if self {
+		icF.SourceInterchainCounter[from] = c
+		icF.SourceReceiptCounter[from] = r
+	}
 	ic.putInterchain(icF)
-	toExists := zz.Choice("dstRecord", 2) == 1
-	if toExists {
+	toExists := self || zz.Choice("dstRecord", 2) == 1
+	if self {
+		// one record serves as source and destination
+	} else if toExists {
 		icT := &pb.Interchain{ID: to, InterchainCounter: map[string]uint64{}, ReceiptCounter: map[string]uint64{},
 			SourceInterchainCounter: map[string]uint64{from: c}, SourceReceiptCounter: map[string]uint64{from: r}}
 		ic.putInterchain(icT)
@@ -214,6 +221,9 @@ func zzHandleIBTPStep(nStatus int, onlyRequests bool) {
 		if rec.Status == pb.TransactionStatus_BEGIN {
 			// delivered exactly to its destination
 			want := "chB"
+			if self {
+				want = "chA"
+			}
 			if dk == 1 {
 				want = zzHubID
 			}
